@@ -28,6 +28,7 @@ import dataclasses
 import functools
 import inspect
 import operator
+import re
 import sys
 
 import optree
@@ -46,6 +47,10 @@ MAKE_KEYS = {
     'C19.accessors_address_leaves': 'C19.make_dataclass_layout',
     'C19.same_class_as_stdlib': 'C19.make_dataclass_same_class_as_stdlib',
     'C19.unexpected_exception': 'C19.make_dataclass_unexpected_exception',
+    'C19.roundtrip_equal_post_init_rerun': 'C19.make_dataclass_roundtrip',
+    'C19.leaf_in_other_namespaces': 'C19.make_dataclass_leaf_in_other_namespaces',
+    'C19.rejects_non_init_pytree_node': 'C19.make_dataclass_rejects_non_init_pytree_node',
+    'C19.rejects_decorating_twice': 'C19.make_dataclass_rejects_decorating_twice',
 }
 
 
@@ -133,6 +138,11 @@ def mark(x):
 
 def same_objects(a, b):
     return len(a) == len(b) and all(x is y for x, y in zip(a, b))
+
+
+def repr_of(x):
+    """repr without object addresses (repr=False leaves object.__repr__)."""
+    return re.sub(r' at 0x[0-9a-fA-F]+', ' at 0x..', repr(x))
 
 
 def outcome(fn):
@@ -365,4 +375,944 @@ def describe(spec):
                 (' in namespace %s' % ('GLOBAL' if b['ns'] == 'G' else repr(b['ns']))) if b['kind'].startswith('optree') else '',
                 '; '.join(show_field(f) for f in b['fields']))
     return s
-# @@PART2@@
+
+
+def _reach(x, out):
+    out.add(id(x))
+    if isinstance(x, (tuple, list)):
+        for c in x:
+            _reach(c, out)
+    elif isinstance(x, dict):
+        for k, c in x.items():
+            _reach(k, out)
+            _reach(c, out)
+    return out
+
+
+def field_tuples(cls):
+    return [(f.name, f.type, f.default, f.default_factory is dataclasses.MISSING, f.init, f.repr, f.hash, f.compare,
+             f.kw_only) for f in dataclasses.fields(cls)]
+
+
+def class_keys(cls):
+    return sorted(k for k in vars(cls) if k != '__optree_dataclass_fields__')
+
+
+def check_layout(spec):
+    """All contract evaluations of one layout. -> (Rec, info)"""
+    M = dataclasses.MISSING
+    r = Rec(MAKE_KEYS if spec['how'] == 'make' else None)
+    info = {'status': 'ok', 'nontrivial': False}
+    D = describe(spec)
+    N = NS_ARG[spec['ns']]                       # registration namespace (GLOBAL sentinel or a string)
+    NL = '' if spec['ns'] == 'G' else spec['ns']   # the same namespace as a lookup argument
+    opts = spec.get('opts') or {}
+    try:
+        T = build_class(spec, 'stdlib', new_track())
+    except (TypeError, ValueError) as e:
+        info['status'] = 'twin_rejected: ' + show_exc(e)      # stdlib dataclasses rejects the layout: out of scope
+        return r, info
+    by_name = {}
+    if spec.get('base') is not None and spec['base']['kind'] != 'plain':
+        for fs in spec['base']['fields']:
+            by_name[fs['name']] = fs
+    for fs in spec['fields']:
+        by_name[fs['name']] = fs
+    tf = dataclasses.fields(T)
+    children = [f.name for f in tf if declared_pytree_node(by_name[f.name])]
+    metadata = [f.name for f in tf if not declared_pytree_node(by_name[f.name]) and f.init]
+    others = [f.name for f in tf if f.name not in children and f.name not in metadata]
+    init_names = [f.name for f in tf if f.init]
+    must_reject = any(not f.init for f in tf if f.name in children)
+    info['nontrivial'] = bool(children) and bool(metadata or others) and not must_reject
+
+    def args_for(variant, prefix):
+        pos, kw = [], {}
+        for f in tf:
+            if not f.init:
+                continue
+            if variant == 'min' and (f.default is not M or f.default_factory is not M):
+                continue
+            v = mkval(by_name[f.name].get('val', 'L'), prefix + f.name)
+            if f.kw_only or variant == 'min':
+                kw[f.name] = v
+            else:
+                pos.append(v)
+        return pos, kw
+
+    track = new_track()
+    try:
+        # ---- decoration -------------------------------------------------------------------------------------
+        try:
+            C = build_class(spec, 'optree', track)
+        except Exception as e:   # noqa: BLE001 - classified right below
+            if must_reject:
+                info['status'] = 'rejected'
+                r.ck(isinstance(e, TypeError), 'C19.rejects_non_init_pytree_node',
+                     '%s: a non-init field is declared a pytree node; expected TypeError, got %s' % (D, show_exc(e)))
+                raw = track['raw']
+                if raw is not None and dataclasses.is_dataclass(raw):
+                    pos, kw = args_for('full', 'v.')
+                    oc = outcome(lambda: raw(*pos, **kw))
+                    if oc[0] == 'ok':
+                        for ns in ALL_NS:
+                            ok, lv = r.call('%s: tree_leaves(namespace=%r) after the rejected decoration' % (D, ns),
+                                            lambda: optree.tree_leaves(oc[1], namespace=ns))
+                            if ok:
+                                r.ck(len(lv) == 1 and lv[0] is oc[1], 'C19.rejects_non_init_pytree_node',
+                                     '%s: decoration raised TypeError but the class is registered: tree_leaves(obj, '
+                                     'namespace=%r) = %r, expected [obj]' % (D, ns, lv))
+            else:
+                info['status'] = 'unexpected_exception'
+                r.ck(False, 'C19.unexpected_exception',
+                     '%s: stdlib dataclasses accepts the layout and no non-init field is a pytree node, but optree raised '
+                     '%s' % (D, show_exc(e)))
+            return r, info
+        if must_reject:
+            info['status'] = 'not_rejected'
+            r.ck(False, 'C19.rejects_non_init_pytree_node',
+                 '%s: a non-init field is declared a pytree node (pytree_node defaults to True); expected TypeError, but '
+                 'the decoration returned normally' % D)
+            return r, info
+        r.evals += 1
+
+        # ---- the class is the one dataclasses.dataclass would produce -----------------------------------------
+        K = 'C19.same_class_as_stdlib'
+        r.ck(dataclasses.is_dataclass(C) and isinstance(C, type), K, '%s: result is not a dataclass' % D)
+        oc = outcome(lambda: field_tuples(C))
+        r.ck(oc == ('ok', field_tuples(T)), K,
+             lambda: '%s: dataclasses.fields (name, type, default, no-factory, init, repr, hash, compare, kw_only) = %r, '
+                     'stdlib twin: %r' % (D, oc[1], field_tuples(T)))
+        oc = outcome(lambda: str(inspect.signature(C.__init__)))
+        r.ck(oc == ('ok', str(inspect.signature(T.__init__))), K,
+             lambda: '%s: __init__ signature %r, stdlib twin: %r' % (D, oc[1], str(inspect.signature(T.__init__))))
+        r.ck(getattr(C, '__slots__', None) == getattr(T, '__slots__', None), K,
+             lambda: '%s: __slots__ %r, stdlib twin: %r' % (D, getattr(C, '__slots__', None), getattr(T, '__slots__', None)))
+        r.ck(getattr(C, '__match_args__', None) == getattr(T, '__match_args__', None), K,
+             lambda: '%s: __match_args__ %r, stdlib twin: %r' % (D, getattr(C, '__match_args__', None),
+                                                                getattr(T, '__match_args__', None)))
+        r.ck((C.__hash__ is None) == (T.__hash__ is None), K,
+             lambda: '%s: (__hash__ is None) = %r, stdlib twin: %r' % (D, C.__hash__ is None, T.__hash__ is None))
+        r.ck(class_keys(C) == class_keys(T), K,
+             lambda: '%s: class dict keys differ from the stdlib twin (besides __optree_dataclass_fields__): %r' % (
+                 D, sorted(set(class_keys(C)) ^ set(class_keys(T)))))
+        r.ck((C.__name__, C.__qualname__, C.__module__, [b.__name__ for b in C.__mro__]) ==
+             (T.__name__, T.__qualname__, T.__module__, [b.__name__ for b in T.__mro__]), K,
+             lambda: '%s: name/qualname/module/mro %r, stdlib twin %r' % (
+                 D, (C.__name__, C.__qualname__, C.__module__, [b.__name__ for b in C.__mro__]),
+                 (T.__name__, T.__qualname__, T.__module__, [b.__name__ for b in T.__mro__])))
+
+        objs = []
+        for variant in ('full', 'min'):
+            pos, kw = args_for(variant, 'v.')
+            tw = T(*pos, **kw)
+            oc = outcome(lambda: C(*pos, **kw))
+            if not r.ck(oc[0] == 'ok', K, lambda: '%s: constructing the instance with %d positional and keyword arguments '
+                        '%r raised %s; the stdlib twin accepts them' % (D, len(pos), sorted(kw), oc[1])):
+                continue
+            o = oc[1]
+            pos2, kw2 = args_for(variant, 'w.')
+            same_o, same_t = outcome(lambda: C(*pos, **kw)), T(*pos, **kw)
+            diff_o, diff_t = outcome(lambda: C(*pos2, **kw2)), T(*pos2, **kw2)
+            obs_o = [outcome(lambda: repr_of(o)), outcome(lambda: o == same_o[1]), outcome(lambda: o == diff_o[1]),
+                     outcome(lambda: o != diff_o[1]), outcome(lambda: hash(o) == hash(same_o[1])),
+                     outcome(lambda: o < diff_o[1]), outcome(lambda: o.method19()),
+                     outcome(lambda: [getattr(o, f.name) for f in tf])]
+            obs_t = [outcome(lambda: repr_of(tw)), outcome(lambda: tw == same_t), outcome(lambda: tw == diff_t),
+                     outcome(lambda: tw != diff_t), outcome(lambda: hash(tw) == hash(same_t)),
+                     outcome(lambda: tw < diff_t), outcome(lambda: tw.method19()),
+                     outcome(lambda: [getattr(tw, f.name) for f in tf])]
+            for what, a, b in zip(('repr(obj)', 'obj == same-args instance', 'obj == different instance',
+                                   'obj != different instance', 'hash(obj) == hash(same-args instance)',
+                                   'obj < different instance', 'a method of the class body', 'field values'),
+                                  obs_o, obs_t):
+                r.ck(a == b, K, lambda: '%s (%s arguments): %s -> %r, stdlib twin: %r' % (D, variant, what, a, b))
+            if init_names and same_o[0] == 'ok':
+                a = outcome(lambda: setattr(same_o[1], init_names[0], Leaf('set')))
+                b = outcome(lambda: setattr(same_t, init_names[0], Leaf('set')))
+                r.ck(a == b, K, lambda: '%s: setattr(obj, %r, ..) -> %r, stdlib twin: %r' % (D, init_names[0], a, b))
+            objs.append((variant, o))
+        info['accepted'] = True
+
+        # ---- pytree behaviour ---------------------------------------------------------------------------------
+        for variant, o in objs:
+            for nil in ((False, True) if variant == 'full' else (False,)):
+                L = '%s (%s arguments, none_is_leaf=%s)' % (D, variant, nil)
+                exp = [((n,) + p, v) for n in children for p, v in ref_flatten(getattr(o, n), nil)]
+                exp_paths, exp_leaves = [p for p, _ in exp], [v for _, v in exp]
+                ok, res = r.call('%s: tree_flatten(obj, namespace=N)' % L,
+                                 lambda: optree.tree_flatten(o, none_is_leaf=nil, namespace=NL))
+                if not ok:
+                    continue
+                leaves, ts = res
+                r.ck(same_objects(leaves, exp_leaves), 'C19.flatten_children_in_declaration_order',
+                     lambda: '%s: tree_flatten leaves %r, expected the values of the pytree_node fields %r in declaration '
+                             'order: %r' % (L, leaves, children, exp_leaves))
+                r.ck(ts.kind == optree.PyTreeKind.CUSTOM and ts.type is C and ts.num_children == len(children),
+                     'C19.flatten_children_in_declaration_order',
+                     lambda: '%s: treespec root kind=%r type=%r num_children=%r, expected CUSTOM / the class / %d' % (
+                         L, ts.kind, ts.type, ts.num_children, len(children)))
+                ok, ent = r.call('%s: treespec.entries()' % L, lambda: ts.entries())
+                if ok:
+                    r.ck(list(ent) == children, 'C19.entries_are_field_names',
+                         lambda: '%s: treespec.entries() = %r, expected the names of the pytree_node fields %r' % (L, ent, children))
+                ok, paths = r.call('%s: tree_paths' % L, lambda: optree.tree_paths(o, none_is_leaf=nil, namespace=NL))
+                if ok:
+                    r.ck(list(paths) == exp_paths, 'C19.entries_are_field_names',
+                         lambda: '%s: tree_paths = %r, expected %r' % (L, paths, exp_paths))
+                ok, res = r.call('%s: tree_flatten_with_path' % L,
+                                 lambda: optree.tree_flatten_with_path(o, none_is_leaf=nil, namespace=NL))
+                if ok:
+                    r.ck(list(res[0]) == exp_paths and same_objects(res[1], exp_leaves) and res[2] == ts,
+                         'C19.entries_are_field_names',
+                         lambda: '%s: tree_flatten_with_path = %r, expected paths %r, leaves %r' % (L, res, exp_paths, exp_leaves))
+                ok, res = r.call('%s: tree_flatten_with_accessor' % L,
+                                 lambda: optree.tree_flatten_with_accessor(o, none_is_leaf=nil, namespace=NL))
+                ok2, accs = r.call('%s: tree_accessors' % L, lambda: optree.tree_accessors(o, none_is_leaf=nil, namespace=NL))
+                if ok and ok2:
+                    KA = 'C19.accessors_address_leaves'
+                    r.ck(list(res[0]) == list(accs) and same_objects(res[1], exp_leaves) and len(accs) == len(exp),
+                         KA, lambda: '%s: tree_flatten_with_accessor %r / tree_accessors %r disagree or do not give the '
+                                     'leaves %r' % (L, res, accs, exp_leaves))
+                    for acc, (p, v) in zip(accs, exp):
+                        def acc_ok():
+                            e0 = acc[0]
+                            code = acc.codify('obj')
+                            return (acc(o) is v and isinstance(e0, optree.DataclassEntry) and e0.entry == p[0]
+                                    and e0.name == p[0] and e0.field == p[0] and e0.type is C
+                                    and e0.kind == optree.PyTreeKind.CUSTOM and e0(o) is getattr(o, p[0])
+                                    and tuple(acc.path) == p and code.startswith('obj.' + p[0])
+                                    and eval(code, {'obj': o}) is v)
+                        okk, val = r.call('%s: using accessor %r' % (L, acc), acc_ok, KA)
+                        if okk:
+                            r.ck(val, KA, lambda: '%s: accessor %r (codify %r) does not address leaf %r at %r through a '
+                                                  'DataclassEntry with field/name %r' % (L, acc, acc.codify('obj'), v, p, p[0]))
+                # round trip
+                KR = 'C19.roundtrip_equal_post_init_rerun'
+                pc0 = C._pc[0]
+                ok, back = r.call('%s: tree_unflatten(treespec, leaves)' % L, lambda: optree.tree_unflatten(ts, leaves))
+                if ok:
+                    eq = outcome(lambda: back == o) if opts.get('eq', True) else ('ok', True)
+                    fieldwise = outcome(lambda: all(getattr(back, n) == getattr(o, n) for n in children + metadata + others))
+                    r.ck(back is not o and type(back) is C and eq == ('ok', True) and fieldwise == ('ok', True), KR,
+                         lambda: '%s: tree_unflatten(*tree_flatten(obj)) = %r (new object: %s, type ok: %s, == obj: %r, '
+                                 'fields equal: %r), expected a new instance equal to %r' % (
+                                     L, back, back is not o, type(back) is C, eq, fieldwise, o))
+                    r.ck(C._pc[0] == pc0 + 1, KR,
+                         lambda: '%s: __post_init__ ran %d times during tree_unflatten, expected once' % (L, C._pc[0] - pc0))
+                    okk, val = r.call('%s: reading the metadata fields of the round-tripped instance' % L,
+                                      lambda: all(getattr(back, n) is getattr(o, n) for n in metadata),
+                                      'C19.metadata_fields_preserved')
+                    if okk:
+                        r.ck(val, 'C19.metadata_fields_preserved',
+                             lambda: '%s: after the round trip the other init fields %r are %r, expected the very objects %r '
+                                     '(metadata is not flattened)' % (L, metadata, [getattr(back, n) for n in metadata],
+                                                                      [getattr(o, n) for n in metadata]))
+                new = [Leaf('new%d' % i) for i in range(len(exp_leaves))]
+                pc0 = C._pc[0]
+                ok, b2 = r.call('%s: tree_unflatten(treespec, new leaves)' % L, lambda: optree.tree_unflatten(ts, new))
+                if ok:
+                    def rebuilt_ok():
+                        got = [v for n in children for _, v in ref_flatten(getattr(b2, n), nil)]
+                        if not same_objects(got, new) or type(b2) is not C:
+                            return False
+                        for n in children:   # same shape as before
+                            if [p for p, _ in ref_flatten(getattr(b2, n), nil)] != [p for p, _ in ref_flatten(getattr(o, n), nil)]:
+                                return False
+                        return True
+                    okk, val = r.call('%s: reading the rebuilt instance' % L, rebuilt_ok, KR)
+                    if okk:
+                        r.ck(val, KR, lambda: '%s: tree_unflatten(treespec, %r) = %r: the pytree_node fields %r do not hold '
+                                              'the new leaves' % (L, new, b2, children))
+                    okk, val = r.call('%s: reading the metadata fields of the rebuilt instance' % L,
+                                      lambda: all(getattr(b2, n) is getattr(o, n) for n in metadata),
+                                      'C19.metadata_fields_preserved')
+                    if okk:
+                        r.ck(val, 'C19.metadata_fields_preserved',
+                             lambda: '%s: after tree_unflatten(treespec, new leaves) the other init fields %r are %r, '
+                                     'expected the original values %r' % (L, metadata, [getattr(b2, n, '<unset>') for n in metadata],
+                                                                          [getattr(o, n) for n in metadata]))
+
+                    def recomputed_ok():
+                        for f in tf:
+                            if f.name in others:
+                                if f.default is M and f.default_factory is M:
+                                    want = ('post', tuple(getattr(b2, n) for n in init_names))
+                                else:
+                                    want = getattr(o, f.name)
+                                if getattr(b2, f.name) != want:
+                                    return False
+                        return C._pc[0] == pc0 + 1
+                    okk, val = r.call('%s: reading the non-init fields of the rebuilt instance' % L, recomputed_ok, KR)
+                    if okk:
+                        r.ck(val, KR, lambda: '%s: after tree_unflatten(treespec, new leaves) __post_init__ ran %d times '
+                                              '(expected 1) / the non-init fields %r = %r are not recomputed from the new '
+                                              'values' % (L, C._pc[0] - pc0, others, [getattr(b2, n, '<unset>') for n in others]))
+            # one level: children / metadata / entries
+            L = '%s (%s arguments)' % (D, variant)
+            ok, one = r.call('%s: tree_flatten_one_level(obj, namespace=N)' % L,
+                             lambda: optree.tree_flatten_one_level(o, namespace=NL))
+            if ok:
+                r.ck(same_objects(list(one.children), [getattr(o, n) for n in children]),
+                     'C19.flatten_children_in_declaration_order',
+                     lambda: '%s: tree_flatten_one_level children %r, expected the values of %r: %r' % (
+                         L, one.children, children, [getattr(o, n) for n in children]))
+                r.ck(list(one.entries) == children and one.type is C and one.kind == optree.PyTreeKind.CUSTOM
+                     and one.path_entry_type is optree.DataclassEntry, 'C19.entries_are_field_names',
+                     lambda: '%s: tree_flatten_one_level entries=%r type=%r kind=%r path_entry_type=%r, expected %r / the '
+                             'class / CUSTOM / DataclassEntry' % (L, one.entries, one.type, one.kind, one.path_entry_type, children))
+                seen = _reach(one.metadata, set())
+                child_leaves = [v for n in children for _, v in ref_flatten(getattr(o, n), True) if isinstance(v, Leaf)]
+                meta_vals = [getattr(o, n) for n in metadata if getattr(o, n) is not None and getattr(o, n) != ()]
+                r.ck(all(id(v) in seen for v in meta_vals) and not any(id(v) in seen for v in child_leaves),
+                     'C19.metadata_fields_preserved',
+                     lambda: '%s: tree_flatten_one_level metadata %r, expected it to hold the values of the other init '
+                             'fields %r = %r and no child' % (L, one.metadata, metadata, [getattr(o, n) for n in metadata]))
+                ok, b3 = r.call('%s: one_level.unflatten_func(metadata, children)' % L,
+                                lambda: one.unflatten_func(one.metadata, one.children))
+                if ok:
+                    fw = outcome(lambda: type(b3) is C and b3 is not o and all(
+                        getattr(b3, n) == getattr(o, n) for n in children + metadata + others))
+                    r.ck(fw == ('ok', True), 'C19.roundtrip_equal_post_init_rerun',
+                         lambda: '%s: unflatten_func(metadata, children) of tree_flatten_one_level = %r, expected a new '
+                                 'instance equal to %r' % (L, b3, o))
+            # a node in N only
+            if variant == 'full':
+                ok, exp_leaves = r.call('%s: tree_leaves(obj, namespace=N)' % L, lambda: optree.tree_leaves(o, namespace=NL))
+                if not ok:
+                    continue
+                for ns in ALL_NS + (None,):
+                    node = spec['ns'] == 'G' or ns == spec['ns']
+                    label = 'tree_leaves(obj)' if ns is None else 'tree_leaves(obj, namespace=%r)' % ns
+                    ok, lv = r.call('%s: %s' % (L, label),
+                                    (lambda: optree.tree_leaves(o)) if ns is None else (lambda: optree.tree_leaves(o, namespace=ns)))
+                    if ok:
+                        want = exp_leaves if node else [o]
+                        r.ck(same_objects(lv, want), 'C19.leaf_in_other_namespaces',
+                             lambda: '%s: registered in %s; %s = %r, expected %s' % (
+                                 L, 'the global namespace' if spec['ns'] == 'G' else 'namespace %r only' % spec['ns'], label, lv,
+                                 ('the same leaves as in its own namespace %r' % want) if node else 'the object itself as a leaf'))
+        # decorating twice
+        try:
+            odc.dataclass(C, namespace=N)
+            r.ck(False, 'C19.rejects_decorating_twice', '%s: applying optree.dataclasses.dataclass a second time returned '
+                                                        'normally, expected TypeError' % D)
+        except Exception as e:   # noqa: BLE001 - classified
+            r.ck(isinstance(e, TypeError), 'C19.rejects_decorating_twice',
+                 '%s: applying optree.dataclasses.dataclass a second time raised %s, expected TypeError' % (D, show_exc(e)))
+        return r, info
+    finally:
+        cleanup(track)
+
+# ---- rejections that do not depend on a layout -------------------------------------------------------------------
+# rspec: dict(kind, ...) - see check_rejection
+
+BAD_NAMESPACES = {'int': 1, 'None': None, 'bytes': b'ns1', 'tuple': ('ns1',)}
+NON_CLASSES = {'int': 42, 'str': 'Rec19', 'function': recfn, 'instance': Leaf('x')}
+
+
+def _default_class():
+    body = {'__annotations__': {'a': object, 'b': object}, 'a': Leaf('da'), 'b': Leaf('db'), '__qualname__': CLS_NAME,
+            '__module__': 'c19'}
+    return type(CLS_NAME, (), body)
+
+
+def check_rejection(rs):
+    r = Rec()
+    kind = rs['kind']
+    classes = []
+    try:
+        if kind == 'field_noninit':
+            kw = {'init': False}
+            if rs['default'] == 'v':
+                kw['default'] = Leaf('d')
+            elif rs['default'] == 'f':
+                kw['default_factory'] = list
+            if rs['kw'] is not None:
+                kw['kw_only'] = rs['kw']
+            if rs['pn'] is not None:
+                kw['pytree_node'] = rs['pn']
+            if rs.get('meta') is not None:
+                kw['metadata'] = rs['meta']
+            D = 'optree.dataclasses.field(%s)' % ', '.join('%s=%r' % kv for kv in kw.items())
+            want_reject = rs['pn'] is True or (rs['pn'] is None and (rs.get('meta') or {}).get('pytree_node', True))
+            oc = outcome(lambda: odc.field(**kw))
+            if want_reject:
+                r.ck(oc == ('exc', 'TypeError'), 'C19.rejects_non_init_pytree_node',
+                     '%s: a non-init field declared a pytree node (pytree_node defaults to True); expected TypeError, got %r' % (D, oc))
+            else:
+                r.ck(oc[0] == 'ok' and isinstance(oc[1], dataclasses.Field) and oc[1].init is False,
+                     'C19.unexpected_exception', '%s: a non-init field that is not a pytree node is allowed; got %r' % (D, oc))
+            return r
+        cls = _default_class()
+        classes.append(cls)
+        if kind == 'empty_namespace':
+            D, fn = {
+                'deco': ("optree.dataclasses.dataclass(cls, namespace='')", lambda: odc.dataclass(cls, namespace='')),
+                'deco_factory': ("optree.dataclasses.dataclass(namespace='')(cls)", lambda: odc.dataclass(namespace='')(cls)),
+                'deco_opts': ("optree.dataclasses.dataclass(cls, namespace='', frozen=True, slots=True)",
+                              lambda: odc.dataclass(cls, namespace='', frozen=True, slots=True)),
+                'make': ("optree.dataclasses.make_dataclass('Rec19', ['a', ('b', object)], namespace='')",
+                         lambda: odc.make_dataclass(CLS_NAME, ['a', ('b', object)], namespace='')),
+                'make_ns': ("optree.dataclasses.make_dataclass('Rec19', [('a', object, field(pytree_node=False))], ns={}, namespace='')",
+                            lambda: odc.make_dataclass(CLS_NAME, [('a', object, odc.field(pytree_node=False))], ns={}, namespace='')),
+            }[rs['form']]
+            key, want = 'C19.rejects_empty_namespace', 'ValueError'
+        elif kind == 'non_str_namespace':
+            bad = BAD_NAMESPACES[rs['value']]
+            D, fn = {
+                'deco': ('optree.dataclasses.dataclass(cls, namespace=%r)' % (bad,), lambda: odc.dataclass(cls, namespace=bad)),
+                'deco_factory': ('optree.dataclasses.dataclass(namespace=%r)(cls)' % (bad,), lambda: odc.dataclass(namespace=bad)(cls)),
+                'make': ("optree.dataclasses.make_dataclass('Rec19', ['a'], namespace=%r)" % (bad,),
+                         lambda: odc.make_dataclass(CLS_NAME, ['a'], namespace=bad)),
+            }[rs['form']]
+            key, want = 'C19.rejects_non_str_namespace', 'TypeError'
+        elif kind == 'non_class':
+            bad = NON_CLASSES[rs['value']]
+            if rs['form'] == 'deco':
+                D, fn = 'optree.dataclasses.dataclass(%r, namespace=%r)' % (bad, rs['ns']), \
+                    lambda: odc.dataclass(bad, namespace=NS_ARG[rs['ns']])
+            else:
+                D, fn = 'optree.dataclasses.dataclass(namespace=%r)(%r)' % (rs['ns'], bad), \
+                    lambda: odc.dataclass(namespace=NS_ARG[rs['ns']])(bad)
+            key, want = 'C19.rejects_non_class', 'TypeError'
+        elif kind == 'twice':
+            first, second = rs['first'], rs['second']
+            D = 'optree.dataclasses.dataclass(cls, namespace=%r%s) applied to a class already decorated in namespace %r' % (
+                second, ''.join(', %s=%r' % kv for kv in sorted(rs.get('opts', {}).items())), first)
+            c1 = odc.dataclass(cls, namespace=NS_ARG[first])
+            classes.append(c1)
+            o = c1()
+            before = {ns: optree.tree_leaves(o, namespace=ns) for ns in ALL_NS}
+            if rs['form'] == 'deco':
+                fn = lambda: odc.dataclass(c1, namespace=NS_ARG[second], **rs.get('opts', {}))   # noqa: E731
+            else:
+                fn = lambda: odc.dataclass(namespace=NS_ARG[second], **rs.get('opts', {}))(c1)   # noqa: E731
+            oc = outcome(fn)
+            r.ck(oc == ('exc', 'TypeError'), 'C19.rejects_decorating_twice', '%s: expected TypeError, got %r' % (D, oc))
+            after = {ns: optree.tree_leaves(o, namespace=ns) for ns in ALL_NS}
+            r.ck(all(same_objects(before[ns], after[ns]) for ns in ALL_NS), 'C19.rejects_decorating_twice',
+                 '%s: the rejected second decoration changed how instances flatten: before %r, after %r' % (D, before, after))
+            if oc[0] == 'ok' and isinstance(oc[1], type):
+                classes.append(oc[1])
+            return r
+        else:
+            raise AssertionError(kind)
+        oc = outcome(fn)
+        r.ck(oc == ('exc', want), key, '%s: expected %s, got %r' % (D, want, oc))
+        if oc[0] == 'ok' and isinstance(oc[1], type):
+            classes.append(oc[1])
+        if kind != 'non_class':
+            inst = outcome(lambda: cls())
+            if inst[0] == 'ok':
+                for ns in ALL_NS:
+                    ok, lv = r.call('%s then tree_leaves(cls(), namespace=%r)' % (D, ns),
+                                    lambda: optree.tree_leaves(inst[1], namespace=ns))
+                    if ok:
+                        r.ck(len(lv) == 1 and lv[0] is inst[1], key,
+                             '%s was rejected but the class is registered: tree_leaves(cls(), namespace=%r) = %r' % (D, ns, lv))
+        return r
+    finally:
+        cleanup(new_track(), classes)
+
+
+# ---- optree.functools.partial ---------------------------------------------------------------------------------------
+# pspec: dict(f: 'plain' | 'lambda' | 'builtin' | 'fpartial' | 'opartial' | 'deep', args: [value kinds],
+#             kw: [[name, value kind], ...] (names in sorted order), inner: index into INNER_VARIANTS)
+
+INNER_VARIANTS = [((), ()), (('L',), ()), (('T',), (('ik', 'L'),)), (('L', 'N'), (('k1', 'D'),))]
+PARTIAL_NS = ('', 'ns1', 'other')
+
+
+def norm(x):
+    """Structure with partial objects made comparable."""
+    if isinstance(x, functools.partial):
+        return ('PARTIAL', norm(tuple(x.args)), norm(dict(x.keywords)))
+    if isinstance(x, tuple):
+        return tuple(norm(c) for c in x)
+    if isinstance(x, list):
+        return [norm(c) for c in x]
+    if isinstance(x, dict):
+        return {k: norm(v) for k, v in x.items()}
+    return x
+
+
+def describe_partial(ps):
+    f = {'plain': 'recfn', 'lambda': '<lambda>', 'builtin': 'operator.add',
+         'fpartial': 'functools.partial(recfn, %s)', 'opartial': 'optree.functools.partial(recfn, %s)',
+         'deep': 'optree.functools.partial(functools.partial(recfn, L), %s)'}[ps['f']]
+    if '%s' in f:
+        ia, ik = INNER_VARIANTS[ps['inner']]
+        f = f % ', '.join(list(ia) + ['%s=%s' % kv for kv in ik])
+    return 'optree.functools.partial(%s)' % ', '.join([f] + list(ps['args']) + ['%s=%s' % (n, k) for n, k in ps['kw']]) + \
+        ' [L leaf, T (L, L), D {j: [L], k: L}, N None, E (), P optree partial(recfn, L, pk=L)]'
+
+
+def build_partial(ps):
+    args = [mkval(k, 'a%d' % i) for i, k in enumerate(ps['args'])]
+    kw = {n: mkval(k, 'k.' + n) for n, k in ps['kw']}
+    pre_args, pre_kw, inner = [], {}, None
+    if ps['f'] == 'plain':
+        f = recfn
+    elif ps['f'] == 'lambda':
+        f = LAMBDA
+    elif ps['f'] == 'builtin':
+        f = operator.add
+    else:
+        ia, ik = INNER_VARIANTS[ps['inner']]
+        pre_args = [mkval(k, 'i%d' % i) for i, k in enumerate(ia)]
+        pre_kw = {n: mkval(k, 'ik.' + n) for n, k in ik}
+        if ps['f'] == 'fpartial':
+            inner = functools.partial(recfn, *pre_args, **pre_kw)
+        elif ps['f'] == 'opartial':
+            inner = oft.partial(recfn, *pre_args, **pre_kw)
+        else:
+            deepest = Leaf('deep')
+            inner = oft.partial(functools.partial(recfn, deepest), *pre_args, **pre_kw)
+            pre_args = [deepest] + pre_args
+        f = inner
+    return f, inner, args, kw, pre_args, pre_kw
+
+
+def expected_call(ps, pre_args, pre_kw, margs, mkw, extra, extra_kw):
+    """What calling the partial must return, computed without any partial object."""
+    pos = list(pre_args) + list(margs) + list(extra)
+    kws = dict(pre_kw)
+    kws.update(mkw)
+    kws.update(extra_kw)
+    if ps['f'] == 'lambda':
+        return outcome(lambda: ('lam', tuple(pos), kws))
+    if ps['f'] == 'builtin':
+        return outcome(lambda: operator.add(*pos, **kws))
+    return outcome(lambda: (tuple(pos), kws))
+
+
+def check_partial(ps):
+    r = Rec()
+    D = describe_partial(ps)
+    f, inner, args, kw, pre_args, pre_kw = build_partial(ps)
+    info = {'nontrivial': bool(ref_flatten((tuple(args), kw), False))}
+    KF, KN, KM = 'C19.partial_flattens_to_args_keywords', 'C19.partial_not_merged', 'C19.partial_tree_map_calls_same_function'
+    ok, p = r.call('%s: construction' % D, lambda: oft.partial(f, *args, **kw))
+    if not ok:
+        return r, info
+    calls = [((), {}), ((Leaf('x0'),), {'k1': Leaf('xk1'), 'xk': Leaf('xk')})]
+    if ps['f'] == 'builtin':
+        calls.append((tuple(Leaf('y%d' % i) for i in range(max(0, 2 - len(args)))), {}))
+    # not merged / a functools.partial
+    r.ck(type(p) is oft.partial and isinstance(p, functools.partial) and same_objects(p.args, args)
+         and list(p.keywords) == list(kw) and all(p.keywords[k] is kw[k] for k in kw), KN,
+         lambda: '%s: p.args = %r, p.keywords = %r, expected exactly the given arguments %r, %r' % (D, p.args, p.keywords, args, kw))
+    if inner is None:
+        r.ck(p.func is f, KF, lambda: '%s: p.func = %r, expected the wrapped callable %r' % (D, p.func, f))
+    else:
+        probe = (Leaf('z'),)
+        a, b = outcome(lambda: norm(p.func(*probe))), outcome(lambda: norm(inner(*probe)))
+        r.ck(p.func is not recfn and not isinstance(p.func, type(recfn)) and a == b and a[0] == 'ok', KN,
+             lambda: '%s: p.func = %r must be the wrapped partial (not merged): p.func(z) -> %r, wrapped(z) -> %r' % (D, p.func, a, b))
+    for extra, extra_kw in calls:
+        a = outcome(lambda: norm(p(*extra, **extra_kw)))
+        b = expected_call(ps, pre_args, pre_kw, norm(tuple(args)), norm(kw), extra, extra_kw)
+        r.ck(a == b, KM, lambda: '%s: p(*%r, **%r) -> %r, expected %r' % (D, extra, extra_kw, a, b))
+    for ns in PARTIAL_NS:
+        for nil in (False, True):
+            L = '%s, namespace=%r, none_is_leaf=%s' % (D, ns, nil)
+            exp = ([(('args',) + q, v) for q, v in ref_flatten(tuple(args), nil)]
+                   + [(('keywords',) + q, v) for q, v in ref_flatten(kw, nil)])
+            exp_paths, exp_leaves = [q for q, _ in exp], [v for _, v in exp]
+            ok, res = r.call('%s: tree_flatten' % L, lambda: optree.tree_flatten(p, none_is_leaf=nil, namespace=ns))
+            if not ok:
+                continue
+            leaves, ts = res
+            r.ck(same_objects(leaves, exp_leaves), KF,
+                 lambda: '%s: tree_flatten leaves %r, expected the leaves of (args, keywords) %r' % (L, leaves, exp_leaves))
+            okk, val = r.call('%s: treespec inspection' % L, lambda: (
+                ts.kind == optree.PyTreeKind.CUSTOM and ts.type is oft.partial and ts.num_children == 2
+                and list(ts.entries()) == ['args', 'keywords'] and ts.child(0).kind == optree.PyTreeKind.TUPLE
+                and ts.child(0).num_children == len(args) and ts.child(1).kind == optree.PyTreeKind.DICT
+                and list(ts.child(1).entries()) == sorted(kw)))
+            if okk:
+                r.ck(val, KF, lambda: '%s: treespec %r, expected a CUSTOM node of type optree.functools.partial with entries '
+                                      "('args', 'keywords') over a tuple of %d and a dict with keys %r" % (L, ts, len(args), sorted(kw)))
+            ok, paths = r.call('%s: tree_paths' % L, lambda: optree.tree_paths(p, none_is_leaf=nil, namespace=ns))
+            if ok:
+                r.ck(list(paths) == exp_paths, KF, lambda: '%s: tree_paths %r, expected %r' % (L, paths, exp_paths))
+            ok, accs = r.call('%s: tree_accessors' % L, lambda: optree.tree_accessors(p, none_is_leaf=nil, namespace=ns))
+            if ok:
+                def accs_ok():
+                    if len(accs) != len(exp):
+                        return False
+                    for acc, (q, v) in zip(accs, exp):
+                        e0, code = acc[0], acc.codify('obj')
+                        if not (acc(p) is v and isinstance(e0, optree.GetAttrEntry) and e0.name == q[0] and e0.entry == q[0]
+                                and e0.type is oft.partial and tuple(acc.path) == q and code.startswith('obj.' + q[0])
+                                and eval(code, {'obj': p}) is v):
+                            return False
+                    return True
+                okk, val = r.call('%s: using the accessors %r' % (L, accs), accs_ok, KF)
+                if okk:
+                    r.ck(val, KF, lambda: '%s: accessors %r do not address the leaves %r through GetAttrEntry args / keywords' % (
+                        L, accs, exp))
+            ok, one = r.call('%s: tree_flatten_one_level' % L,
+                             lambda: optree.tree_flatten_one_level(p, none_is_leaf=nil, namespace=ns))
+            if ok:
+                ch = list(one.children)
+                r.ck(len(ch) == 2 and isinstance(ch[0], tuple) and same_objects(ch[0], args) and isinstance(ch[1], dict)
+                     and list(ch[1]) == list(kw) and all(ch[1][k] is kw[k] for k in kw)
+                     and tuple(one.entries) == ('args', 'keywords') and one.type is oft.partial
+                     and one.path_entry_type is optree.GetAttrEntry and one.kind == optree.PyTreeKind.CUSTOM, KF,
+                     lambda: '%s: tree_flatten_one_level children %r entries %r type %r path_entry_type %r, expected children '
+                             "[args, keywords] = [%r, %r], entries ('args', 'keywords'), GetAttrEntry" % (
+                                 L, ch, one.entries, one.type, one.path_entry_type, tuple(args), kw))
+                if inner is None:
+                    r.ck(one.metadata is f, KF, lambda: '%s: tree_flatten_one_level metadata %r, expected the wrapped callable '
+                                                        '%r' % (L, one.metadata, f))
+                else:
+                    probe = (Leaf('z'),)
+                    a, b = outcome(lambda: norm(one.metadata(*probe))), outcome(lambda: norm(inner(*probe)))
+                    r.ck(one.metadata is not recfn and a == b and a[0] == 'ok' and outcome(lambda: one.metadata == inner) == ('ok', True),
+                         KN, lambda: '%s: tree_flatten_one_level metadata %r must be the wrapped partial %r (not merged): '
+                                     'metadata(z) -> %r, wrapped(z) -> %r' % (L, one.metadata, inner, a, b))
+            ok, back = r.call('%s: tree_unflatten(treespec, leaves)' % L, lambda: optree.tree_unflatten(ts, leaves))
+            if ok:
+                def back_ok():
+                    if type(back) is not oft.partial or back is p:
+                        return False
+                    if norm(tuple(back.args)) != norm(tuple(args)) or norm(dict(back.keywords)) != norm(kw):
+                        return False
+                    if [id(v) for _, v in ref_flatten((tuple(back.args), dict(back.keywords)), nil)] != [id(v) for v in exp_leaves]:
+                        return False
+                    return all(outcome(lambda: norm(back(*e, **ek))) == outcome(lambda: norm(p(*e, **ek))) for e, ek in calls)
+                okk, val = r.call('%s: using the unflattened partial' % L, back_ok, KF)
+                if okk:
+                    r.ck(val, KF, lambda: '%s: tree_unflatten(*tree_flatten(p)) = %r, expected an optree partial with the same '
+                                          'function, args %r and keywords %r' % (L, back, args, kw))
+            ok, q = r.call('%s: tree_map(mark, p)' % L, lambda: optree.tree_map(mark, p, none_is_leaf=nil, namespace=ns))
+            if ok:
+                margs = tuple(ref_map(mark, a, nil) for a in args)
+                mkw = {k: ref_map(mark, kw[k], nil) for k in kw}
+                okk, val = r.call('%s: reading the mapped partial' % L, lambda: (
+                    type(q) is oft.partial and norm(tuple(q.args)) == margs and norm(dict(q.keywords)) == mkw), KM)
+                if okk:
+                    r.ck(val, KM, lambda: '%s: tree_map(mark, p) = %r, expected an optree partial with args %r, keywords %r' % (
+                        L, q, margs, mkw))
+                    for extra, extra_kw in calls:
+                        a = outcome(lambda: norm(q(*extra, **extra_kw)))
+                        b = expected_call(ps, pre_args, pre_kw, margs, mkw, extra, extra_kw)
+                        r.ck(a == b, KM, lambda: '%s: tree_map(mark, p)(*%r, **%r) -> %r, expected the same function called '
+                                                 'with the mapped arguments: %r' % (L, extra, extra_kw, a, b))
+    return r, info
+# <<< core
+
+
+# ----------------------------------------------------------------------------------------------------------------------
+# enumeration
+
+def _core_source() -> str:
+    src = open(__file__).read()
+    return src[src.index('\n# >>> core\n') + 1:src.index('\n# <<< core\n') + 1]
+
+
+def _script(fn: str, spec, key: str) -> str:
+    return (_core_source() + '\n\n'
+            f'SPEC = {spec!r}\nKEY = {key!r}\n'
+            'try:\n'
+            f'    res = {fn}(SPEC)\n'
+            '    rec = res[0] if isinstance(res, tuple) else res\n'
+            'except Exception:\n'
+            '    import traceback\n'
+            '    traceback.print_exc()\n'
+            '    sys.exit(2)   # the replay itself is broken - not a reproduction\n'
+            'for k, w in rec.bad:\n'
+            '    print(k, w)\n'
+            'sys.exit(1 if any(k == KEY for k, _ in rec.bad) else 0)\n')
+
+
+def _field_kinds():
+    """(via, default, init, pytree_node) - every combination whose field() call itself is accepted."""
+    kinds = []
+    for default in 'nvf':
+        for pn in (True, False, None):
+            kinds.append(('o', default, True, pn))
+        kinds.append(('o', default, False, False))
+    kinds += [('p', 'n', True, None), ('p', 'v', True, None)]
+    for default in 'nvf':
+        for init in (True, False):
+            kinds.append(('s', default, init, False))
+    kinds += [('s', 'n', True, True), ('s', 'n', True, None), ('s', 'f', True, None),
+              ('s', 'n', False, None), ('s', 'v', False, True)]      # the last two must be rejected at decoration
+    return kinds
+
+
+REDUCED = [('o', 'n', True, None), ('o', 'n', True, False), ('o', 'v', True, True), ('o', 'f', True, False),
+           ('o', 'n', False, False), ('o', 'v', False, False), ('p', 'n', True, None), ('s', 'v', True, False)]
+NAMES = 'abcd'
+VALS = ['L', 'L', 'T', 'L', 'D', 'N', 'L', 'E', 'T', 'L']
+OPTS8 = [dict(zip(('kw_only', 'slots', 'frozen'), bits)) for bits in itertools.product((False, True), repeat=3)]
+OPTS8 = [{k: v for k, v in o.items() if v} for o in OPTS8]
+OPTS_EXTRA = [{'eq': False}, {'order': True}, {'unsafe_hash': True}, {'eq': False, 'frozen': True},
+              {'order': True, 'frozen': True, 'slots': True}, {'unsafe_hash': True, 'kw_only': True},
+              {'match_args': False}, {'repr': False, 'slots': True}, {'slots': True, 'weakref_slot': True}]
+OPTS_ALL = OPTS8 + OPTS_EXTRA
+
+
+def _fs(name, kind, kw=None, val='L', **extra):
+    via, default, init, pn = kind
+    d = dict(name=name, via=via, default=default, init=init, pn=pn, kw=kw, val=val)
+    d.update(extra)
+    return d
+
+
+def _fields(kinds, kws, i, seed, names=NAMES):
+    return [_fs(names[j], k, kws[j] if k[0] != 'p' else None, VALS[(i * 7 + j * 3 + seed) % len(VALS)])
+            for j, k in enumerate(kinds)]
+
+
+def _layouts(tier: str, seed: int):
+    """Yield (section, spec). Deterministic for (tier, seed)."""
+    rng = random.Random(1000003 * seed + (1 if tier == 'quick' else 2))
+    kinds = _field_kinds()
+    quick = tier == 'quick'
+    hows = ('deco', 'deco_factory')
+    nss = ('ns1', 'G')
+    i = 0
+
+    # S1: one field, every kind x kw_only x every option set (x both namespaces in thorough)
+    for k in kinds:
+        for kw in ((None,) if k[0] == 'p' else (None, True, False)):
+            for opts in OPTS_ALL:
+                for ns in ((nss[i % 2],) if quick else nss):
+                    i += 1
+                    yield 'S1', dict(how=hows[i % 2], ns=ns, opts=opts, fields=_fields([k], [kw], i, seed))
+    # make_dataclass (smallest first)
+    mk = [('p', 'n', True, None), ('p', 'v', True, None), ('o', 'n', True, None), ('o', 'n', True, False),
+          ('o', 'v', True, False), ('o', 'f', True, None), ('o', 'f', True, False), ('o', 'v', True, True),
+          ('o', 'n', False, False), ('o', 'f', False, False), ('s', 'n', True, False), ('s', 'n', False, None)]
+    mopts = OPTS_ALL if not quick else OPTS8 + OPTS_EXTRA[:3]
+    for n in (1, 2) if quick else (1, 2, 3):
+        for ks in itertools.product(mk if n < 3 else mk[:8], repeat=n):
+            for t in range(2 if quick else (4 if n < 3 else 1)):
+                i += 1
+                opts = mopts[(i * 5 + t) % len(mopts)]
+                fields = _fields(ks, [(None, True)[(i + j) % 5 == 0] for j in range(n)], i, seed)
+                if fields[0]['via'] == 'p' and fields[0]['default'] == 'n' and i % 2:
+                    fields[0]['bare'] = True
+                spec = dict(how='make', ns=nss[i % 2], opts=opts, fields=fields)
+                if i % 7 == 0:
+                    spec['base'] = dict(kind='plain')
+                elif i % 7 == 3:
+                    spec['base'] = dict(kind='optree_same', ns=spec['ns'], fields=[_fs('x', ('o', 'n', True, (None, False)[i % 2]))])
+                yield 'make', spec
+    # inheritance
+    obase = [[('o', 'n', True, None)], [('o', 'n', True, False)], [('o', 'v', True, False)],
+             [('o', 'n', True, None), ('o', 'f', True, False)], [('o', 'n', False, False)], [('p', 'v', True, None)],
+             [('o', 'n', True, False), ('o', 'n', True, None)]]
+    sbase = [[('p', 'n', True, None)], [('s', 'n', True, False)], [('s', 'v', True, None)], [('s', 'n', False, None)],
+             [('s', 'f', False, False)], [('s', 'n', True, False), ('p', 'n', True, None)]]
+    bases = []
+    for bf in obase:
+        bases += [('optree_same', bf), ('optree_other', bf), ('optree_global', bf)]
+    bases += [('stdlib', bf) for bf in sbase] + [('plain', None)]
+    own_alpha = REDUCED if quick else kinds
+    for n in (1, 2):
+        for ks in itertools.product(own_alpha if n == 1 else REDUCED, repeat=n):
+            for bkind, bf in bases:
+                for t in range(1 if quick else 3):
+                    i += 1
+                    ns = nss[i % 2]
+                    opts = OPTS_ALL[(i * 3 + t) % len(OPTS_ALL)]
+                    names = NAMES if i % 11 else 'xbcd'      # sometimes the first own field overrides the base field x
+                    spec = dict(how=hows[i % 2], ns=ns, opts=opts,
+                                fields=_fields(ks, [(None, True, False)[(i + j) % 3] if i % 4 == 0 else None for j in range(n)],
+                                               i, seed, names))
+                    if bkind == 'plain':
+                        spec['base'] = dict(kind='plain')
+                    else:
+                        bns = {'optree_same': ns, 'optree_other': 'ns2', 'optree_global': 'G', 'stdlib': None}[bkind]
+                        if bkind == 'optree_global' and ns == 'G':
+                            bns = 'ns1'
+                        spec['base'] = dict(kind='optree' if bkind.startswith('optree') else 'stdlib', ns=bns,
+                                            fields=[_fs('xy'[j], k, None, VALS[(i + j) % len(VALS)]) for j, k in enumerate(bf)])
+                        if bkind.startswith('optree'):
+                            spec['base']['kind'] = 'optree_same' if bns == ns else 'optree_other'
+                    yield 'inherit', spec
+    # S2: two fields
+    for ks in itertools.product(kinds, repeat=2):
+        for t in range(2 if quick else 4):
+            i += 1
+            yield 'S2', dict(how=hows[i % 2], ns=nss[(i // 2) % 2], opts=OPTS_ALL[(i * 5 + t * 3) % len(OPTS_ALL)],
+                             fields=_fields(ks, [None, None], i, seed))
+    for ks in itertools.product(REDUCED if quick else kinds, repeat=2):
+        for kws in itertools.product((None, True, False), repeat=2):
+            if kws == (None, None):
+                continue
+            for t in range(2 if quick else 1):
+                i += 1
+                yield 'S2kw', dict(how=hows[i % 2], ns=nss[(i // 2) % 2], opts=OPTS8[(i + t * 3) % len(OPTS8)],
+                                   fields=_fields(ks, kws, i, seed))
+    # S3: three fields
+    for ks in itertools.product(REDUCED if quick else kinds, repeat=3):
+        for t in range(1 if quick else 2):
+            i += 1
+            kws = [None, None, None] if i % 3 else [(None, True, False)[(i // 3 + j) % 3] for j in range(3)]
+            yield 'S3', dict(how=hows[i % 2], ns=nss[(i // 2) % 2], opts=OPTS_ALL[(i * 5 + t * 7) % len(OPTS_ALL)],
+                             fields=_fields(ks, kws, i, seed))
+    # S4 (thorough): four fields over the reduced alphabet
+    if not quick:
+        for ks in itertools.product(REDUCED, repeat=4):
+            i += 1
+            kws = [None] * 4 if i % 3 else [(None, True, False)[(i // 3 + j) % 3] for j in range(4)]
+            yield 'S4', dict(how=hows[i % 2], ns=nss[(i // 2) % 2], opts=OPTS_ALL[(i * 5) % len(OPTS_ALL)],
+                             fields=_fields(ks, kws, i, seed))
+    # seeded random layouts over the full alphabet (3 fields quick, 3-4 fields thorough), until the budget is used
+    for _ in range(1500 if quick else 40000):
+        i += 1
+        n = 3 if quick else rng.choice((3, 4, 4))
+        # bias towards layouts stdlib accepts: required fields first
+        ks = [rng.choice(kinds) for _ in range(n)]
+        if rng.random() < 0.7:
+            ks.sort(key=lambda k: (k[1] != 'n' and k[2]))
+        kws = [rng.choice((None, None, True, False)) for _ in range(n)]
+        spec = dict(how=rng.choice(hows + ('make',)) if rng.random() < 0.9 else 'make', ns=rng.choice(nss),
+                    opts=rng.choice(OPTS_ALL), fields=_fields(ks, kws, i, seed))
+        yield 'random', spec
+
+
+def _partials(tier: str, seed: int):
+    quick = tier == 'quick'
+    vk = ['L', 'T', 'D', 'N', 'E']
+    arg_sets = [()] + [(a,) for a in vk] + list(itertools.product(vk, repeat=2))
+    kw_sets = [()] + [((n, a),) for n in ('k1', 'k2') for a in vk] + \
+              [(('k1', a), ('k2', b)) for a, b in itertools.product(vk, repeat=2)]
+    i = 0
+    for f in ('plain', 'lambda', 'builtin', 'fpartial', 'opartial', 'deep'):
+        for args in arg_sets:
+            for kw in kw_sets:
+                i += 1
+                if quick and len(args) == 2 and len(kw) == 2 and (i + seed) % 4:
+                    continue      # quick: a quarter of the 2 x 2 combinations (thinned by seed)
+                if f == 'deep' and (i + seed) % 3:
+                    continue
+                yield dict(f=f, args=list(args), kw=[list(x) for x in kw], inner=i % len(INNER_VARIANTS))
+    # partial objects as arguments (pytree-valued arguments that are themselves partial nodes)
+    for f in ('plain', 'fpartial', 'opartial'):
+        for args in [('P',), ('P', 'L'), ('T', 'P'), ('P', 'P')]:
+            for kw in [(), (('k1', 'P'),), (('k1', 'L'), ('k2', 'P'))]:
+                i += 1
+                yield dict(f=f, args=list(args), kw=[list(x) for x in kw], inner=i % len(INNER_VARIANTS))
+
+
+def _rejections():
+    for default in 'nvf':
+        for kw in (None, True, False):
+            for pn in (True, None, False):
+                yield dict(kind='field_noninit', default=default, kw=kw, pn=pn)
+            yield dict(kind='field_noninit', default=default, kw=kw, pn=None, meta={'pytree_node': False})
+            yield dict(kind='field_noninit', default=default, kw=kw, pn=None, meta={'pytree_node': True})
+            yield dict(kind='field_noninit', default=default, kw=kw, pn=True, meta={'pytree_node': False})
+            yield dict(kind='field_noninit', default=default, kw=kw, pn=None, meta={'other': 1})
+    for form in ('deco', 'deco_factory', 'deco_opts', 'make', 'make_ns'):
+        yield dict(kind='empty_namespace', form=form)
+    for value in BAD_NAMESPACES:
+        for form in ('deco', 'deco_factory', 'make'):
+            yield dict(kind='non_str_namespace', form=form, value=value)
+    for value in NON_CLASSES:
+        for form in ('deco', 'factory'):
+            for ns in ('ns1', 'G'):
+                yield dict(kind='non_class', form=form, value=value, ns=ns)
+    for first in ('ns1', 'G'):
+        for second in ('ns1', 'G', 'ns2'):
+            for form in ('deco', 'factory'):
+                for opts in ({}, {'frozen': True}, {'slots': True}):
+                    yield dict(kind='twice', form=form, first=first, second=second, opts=opts)
+
+
+def _run(ctx: U.Ctx, tier: str, seed: int) -> BoundedReport:
+    counts: dict = {}
+    status: dict = {}
+
+    def record(fn, spec, rec, desc):
+        ctx.count(rec.evals)
+        seen = set()
+        for key, what in rec.bad:
+            if key in seen:
+                continue          # one finding per clause and input (the first symptom)
+            seen.add(key)
+            ctx.fail(key, what, lambda key=key: _script(fn, spec, key), {'spec': spec, 'checker': fn})
+
+    # rejections that do not depend on a layout
+    for rs in _rejections():
+        ctx.progress('check_rejection(%r)' % (rs,))
+        record('check_rejection', rs, check_rejection(rs), repr(rs))
+        counts['rejections'] = counts.get('rejections', 0) + 1
+
+    # partial: given a third of the budget at most
+    complete = True
+    part_deadline = ctx.t0 + (ctx.deadline - ctx.t0) * 0.3
+    n_part = 0
+    import time as _time
+    for ps in _partials(tier, seed):
+        if _time.time() > part_deadline:
+            ctx.truncated = True
+            complete = False
+            break
+        ctx.progress('check_partial(%r)' % (ps,))
+        rec, info = check_partial(ps)
+        record('check_partial', ps, rec, None)
+        n_part += 1
+        if info['nontrivial']:
+            ctx.mark_nontrivial('partial:' + repr(ps))
+        if n_part in (40, 700):
+            ctx.sample(describe_partial(ps).split(' [L leaf')[0])
+
+    n_lay = 0
+    for section, spec in _layouts(tier, seed):
+        if n_lay % 32 == 0 and ctx.out_of_time():
+            complete = False
+            break
+        ctx.progress('check_layout(%r)' % (spec,))
+        rec, info = check_layout(spec)
+        st = info['status'].split(':')[0]
+        status[st] = status.get(st, 0) + 1
+        if st == 'twin_rejected':
+            continue
+        n_lay += 1
+        counts[section] = counts.get(section, 0) + 1
+        record('check_layout', spec, rec, None)
+        if info['nontrivial']:
+            ctx.mark_nontrivial(describe(spec))
+            if counts[section] in (3, 50) and section in ('S2', 'inherit', 'S3'):
+                ctx.sample(describe(spec))
+
+    ctx.notes.append(
+        'layout outcomes: %s; layouts that the stdlib decorator itself rejects on the twin (%d) are outside the scope and not '
+        'counted. Not checked (not promised by the statement): the exact format of the metadata (only: it holds the values '
+        'of the other init fields and no child); treespec.namespace; __dataclass_params__; init=False as a decorator '
+        'option; the ns/namespace argument swap of make_dataclass; applying the optree decorator to a class that already '
+        'is a stdlib dataclass; mutation of non-init fields between flatten and unflatten; dataclass(namespace=..)(None). '
+        'rejects_non_class / rejects_non_str_namespace come from the documented signature (TypeError), not from the '
+        'property statement. For make_dataclass the clause keys are C19.make_dataclass_layout (children / metadata / '
+        'entries / accessors), C19.make_dataclass_same_class_as_stdlib and C19.make_dataclass_unexpected_exception'
+        % (dict(sorted(status.items())), status.get('twin_rejected', 0)))
+    return ctx.report(
+        rule='non-trivial = a layout with at least one pytree_node field and at least one other field (metadata or non-init) '
+             'that is accepted, or a partial with at least one leaf in (args, keywords); distinct by the full description '
+             '(fields, flags, options, namespace, base, value shapes). One evaluation = one clause instance: a decoration '
+             'outcome, one comparison with the stdlib twin, or one observation (tree_flatten / entries / paths / accessors / '
+             'one_level / unflatten / tree_map / call) against the expectation derived from the declaration',
+        scope='%d accepted-by-stdlib layouts: %s (fields: optree field() default{none,value,factory} x init x pytree_node'
+              '{True,False,None}, plain annotations, stdlib field() with/without pytree_node metadata; kw_only per field; '
+              'options kw_only/slots/frozen exhaustively + eq/order/unsafe_hash/match_args/repr/weakref_slot; namespaces '
+              'GLOBAL and ns1; decorator call and decorator factory; base = optree dataclass in the same / another / the '
+              'global namespace, stdlib dataclass, plain class; values leaf / tuple / dict / None / (); observed with '
+              'none_is_leaf in {False, True} in namespaces \'\', ns1, ns2, other); %d argument-fault rejections; %d partials '
+              '(function, lambda, operator.add, functools.partial, optree partial, 3 levels) x 0..2 positional x 0..2 keyword '
+              'pytrees (leaf, tuple, dict, None, (), nested optree partial) x namespaces \'\', ns1, other x none_is_leaf'
+              % (n_lay, ', '.join('%s=%d' % kv for kv in counts.items() if kv[0] != 'rejections'),
+                 counts.get('rejections', 0), n_part),
+        exhaustive=complete)
+
+
+def run(tier: str, seed: int) -> BoundedReport:
+    budget = 40 if tier == 'quick' else 660
+    return U.run_isolated('c19_dataclass', 'C19', tier, seed, budget_s=budget, hard_timeout_s=budget * 2 + 60)
